@@ -356,6 +356,8 @@ fn fixed_sets(rng: &mut Rng, n_adv: usize) -> Vec<Set> {
 ///  * an extreme-pair matrix (i128::MIN, -1 as i64 and as i128, 0, 1, i128::MAX, u128::MAX,
 ///    i64::MIN — all 64 pairs) through every binary arithmetic / comparison instruction and unary
 ///    minus, from the context and against literals;
+///  * a block under 0 – 4 nested captures (filter sections, set blocks, component bodies) × render and
+///    render_block, with the direct oracle "render_block does not depend on the enclosing captures";
 ///  * strings printed with `{:?}` inside arrays / maps / as map keys over the characters std escapes
 ///    as `\u{..}` and their neighbours;
 ///  * filters that must FAIL (wrong receiver kind, wrong kwarg type) at every filter position:
@@ -467,6 +469,49 @@ fn directed_sets() -> Vec<Set> {
         }
     }
     both_ae(&mut out, "directed.extreme_pairs", templates, entries, runs);
+
+    // ---- a block under 0, 1, 2, 3 nested captures (filter sections, set blocks, component bodies),
+    // rendered whole and by `render_block` (F4: every enclosing capture buffer is set aside while
+    // the requested block runs).  Direct oracle in `main`: `render_block` of `k` gives the same text
+    // in every template of the set (the body of `k` is the same everywhere).
+    {
+        let k = "{% block k %}k{{ a }}{% block n %}n{{ b }}{% endblock n %}{% endblock k %}";
+        let shapes: [(&str, String); 12] = [
+            ("d0", format!("A{k}B")),
+            ("d1f", format!("{{% filter upper %}}x{k}y{{% endfilter %}}")),
+            ("d1s", format!("{{% set w %}}x{k}y{{% endset %}}[{{{{ w }}}}]")),
+            ("d2ff", format!("{{% filter upper %}}p{{% filter trim %}} x{k}y {{% endfilter %}}q{{% endfilter %}}")),
+            ("d2sf", format!("{{% set w %}}p{{% filter upper %}}x{k}y{{% endfilter %}}q{{% endset %}}[{{{{ w }}}}]")),
+            ("d2fs", format!("{{% filter upper %}}p{{% set w %}}x{k}y{{% endset %}}[{{{{ w }}}}]q{{% endfilter %}}")),
+            ("d2ss", format!("{{% set v %}}p{{% set w %}}x{k}y{{% endset %}}[{{{{ w }}}}]q{{% endset %}}<{{{{ v }}}}>")),
+            ("d3", format!("{{% filter upper %}}1{{% set w %}}2{{% filter trim %}} 3{k}4 {{% endfilter %}}5{{% endset %}}[{{{{ w }}}}]6{{% endfilter %}}")),
+            ("d4", format!("{{% filter upper %}}{{% filter lower %}}{{% filter upper %}}{{% filter trim %}} {k} {{% endfilter %}}{{% endfilter %}}{{% endfilter %}}{{% endfilter %}}")),
+            ("dfor", format!("{{% filter upper %}}{{% filter trim %}}{{% for q in [1, 2] %}}{{{{ q }}}}{{% endfor %}}{k}{{% for q in [3] %}}{{{{ q }}}}{{% endfor %}}{{% endfilter %}}{{% endfilter %}}")),
+            ("dcb", format!("{{% component wr() %}}[{{{{ body }}}}]{{% endcomponent wr %}}{{% <wr> %}}x{{% filter upper %}}{k}{{% endfilter %}}y{{% </wr> %}}")),
+            ("dcs", format!("{{% component ws() %}}({{{{ body }}}}){{% endcomponent ws %}}{{% set w %}}{{% <ws> %}}{k}{{% </ws> %}}{{% endset %}}{{{{ w }}}}")),
+        ];
+        let runs = vec![
+            Run { ctx: vec![("a".into(), "s:3c413e".into()), ("b".into(), "i64:7".into())], global: vec![], kind: "generator" },
+            Run { ctx: vec![("a".into(), "S:3c62".into())], global: vec![("b".into(), "s:67".into())], kind: "generator" },
+            Run { ctx: vec![], global: vec![], kind: "empty" },
+        ];
+        // each shape on its own (a shape the parser refuses does not take the others with it),
+        // next to the depth-0 reference; plus a child that overrides `k` and calls super()
+        for (name, src) in shapes.iter() {
+            let templates = vec![
+                ("d0".to_string(), shapes[0].1.clone()),
+                (name.to_string(), src.clone()),
+                (format!("{name}_child"), format!("{{% extends \"{name}\" %}}{{% block n %}}N{{{{ super() }}}}{{% endblock n %}}")),
+            ];
+            let templates: Vec<(String, String)> = if *name == "d0" { templates[1..].to_vec() } else { templates };
+            let mut entries = vec![e("d0", Some("k")), e("d0", Some("n")), e(name, None), e(name, Some("k")), e(name, Some("n"))];
+            let child = format!("{name}_child");
+            entries.push(e(&child, None));
+            entries.push(e(&child, Some("k")));
+            entries.push(e(&child, Some("n")));
+            both_ae(&mut out, "directed.block_in_captures", templates, entries, runs.clone());
+        }
+    }
 
     // ---- strings printed with `{:?}` (inside arrays and maps, as map keys): which characters std
     // writes as `\u{..}` — controls, NO-BREAK SPACE, SOFT HYPHEN, combining marks, the Unicode space
@@ -1026,6 +1071,49 @@ fn main() {
         report.count(&format!("runs.{}", set.runs[o.run].kind));
         report.count(&format!("autoescape.{}", set.ae));
         report.count(if set.entries[o.entry].1.is_some() { "entry.render_block" } else { "entry.render" });
+    }
+
+    // ---- direct oracle of the family `directed.block_in_captures`: `render_block(t, "k")` (and "n")
+    // gives, for a template `t` that is not the child, the text `render_block("d0", ..)` gives —
+    // the captures that enclose the block in `t` must not swallow or change it (C04's render_block
+    // clause / F4; independent of the model)
+    {
+        let mut by: BTreeMap<(usize, usize, usize), &str> = BTreeMap::new();
+        for o in &obs {
+            by.insert((o.set, o.entry, o.run), o.real.as_str());
+        }
+        let mut reported = 0;
+        for (si, set) in sets.iter().enumerate() {
+            if set.stream != "directed.block_in_captures" {
+                continue;
+            }
+            for (ei, (tname, block)) in set.entries.iter().enumerate() {
+                let Some(block) = block else { continue };
+                if tname == "d0" || tname.ends_with("_child") {
+                    continue;
+                }
+                let Some(reference) = set.entries.iter().position(|(t, b)| t == "d0" && b.as_deref() == Some(block.as_str())) else { continue };
+                for ri in 0..set.runs.len() {
+                    let (Some(want), Some(got)) = (by.get(&(si, reference, ri)), by.get(&(si, ei, ri))) else { continue };
+                    report.oracle_checks += 1;
+                    if want != got {
+                        report.oracle_failures += 1;
+                        if reported < 3 {
+                            reported += 1;
+                            let small = reduce_templates(set, ei, &set.runs[ri], got);
+                            report.violation(
+                                "property",
+                                format!(
+                                    "render_block(\"{tname}\", \"{block}\") depends on the captures that enclose the block: {} — the same block outside any capture (template d0) gives {} — template {:?} (autoescape {}) ctx {:?} [render_block must return the block's own text: F4 / C04's render_block clause]",
+                                    show(got), show(want), small.templates, set.ae, set.runs[ri].ctx
+                                ),
+                                replay_json(&small, 0, &set.runs[ri], got, want, "real-render_block"),
+                            );
+                        }
+                    }
+                }
+            }
+        }
     }
 
     // ---- the model VM on the real listings
